@@ -1,0 +1,17 @@
+//go:build verif
+
+package requestadaptor
+
+// Contracts for property C13: a spec accepted by validation must not panic when instantiated.
+// The kind has no Validate() and its jsonschema tags constrain none of these fields, so the
+// precondition "validated" is just well-formedness of the object.
+
+/*@
+func (ra *RequestAdaptor) reload()
+  trusted
+  modifies ra.pa
+
+func (ra *RequestAdaptor) Init()
+  flag frame=unchecked
+  requires ra != nil && ra.spec != nil
+@*/
